@@ -52,7 +52,7 @@ def _clone(nodes):
 
 STRUCT_KINDS = ['delete', 'dup', 'swap', 'insert-crit', 'insert-noncrit', 'retype', 'grow', 'shrink', 'empty',
                 'append-inside']
-BYTE_KINDS = ['sub', 'trunc', 'len-raw', 'append-raw', 'insert-byte', 'delete-byte']
+BYTE_KINDS = ['sub', 'trunc', 'len-raw', 'append-raw', 'insert-byte', 'delete-byte', 'num-wide']
 
 
 def mutation_spec(kinds=None):
@@ -91,6 +91,37 @@ def apply(wire: bytes, m, regions=None):
             return wire[:off] + bytes([m['val']]) + wire[off:]
         if k == 'delete-byte':
             return wire[:off] + wire[off + 1:]
+        if k == 'num-wide':
+            # one INNER element's Type or Length number rewritten in a wide form - the same value non-minimally, or an extreme
+            # 8-octet value (>= 2^63, 2^64-1, 2^64-k) - and the outermost length re-fixed so that the packet stays well framed
+            try:
+                offs = _length_offsets(wire)[1:]
+                outer = T.read_tlv(wire, 0, len(wire))
+            except T.Malformed:
+                return None
+            if not offs or outer[3] != len(wire):
+                return None
+            lo = offs[m['pos'] % len(offs)]
+            ln, lend, _ = T.read_num(wire, lo, len(wire))
+            choice = m['n'] % 4
+            if m['val'] % 3 == 0 and choice != 1:
+                # the Type number in front of it
+                to = max(o for o in _type_offsets(wire) if o < lo)
+                a, b, cur = to, lo, T.read_num(wire, to, len(wire))[0]
+            else:
+                a, b, cur = lo, lend, ln
+            if choice == 0:
+                new = b'\xff' + cur.to_bytes(8, 'big')
+            elif choice == 1:
+                # read as a signed number this is minus the size of the element's own type-length: a cursor that adds it stands still
+                back = (a - T.read_tlv(wire, max(o for o in _type_offsets(wire) if o <= a), len(wire))[1]) + 9 if b != lo else 1
+                new = b'\xff' + (2 ** 64 - max(1, back)).to_bytes(8, 'big')
+            elif choice == 2:
+                new = b'\xff' + (2 ** 63 + m['val']).to_bytes(8, 'big')
+            else:
+                new = b'\xfe' + cur.to_bytes(4, 'big') if cur < 2 ** 32 else b'\xff' + cur.to_bytes(8, 'big')
+            body = wire[outer[2]:a] + new + wire[b:]
+            return T.enc_num(outer[0]) + T.enc_num(len(body)) + body
         if k == 'len-raw':
             # +-n on one element's length byte without re-fixing anything else
             try:
@@ -148,6 +179,20 @@ def apply(wire: bytes, m, regions=None):
         raise ValueError(k)
     out = enc_nodes(tree)
     return out if out != wire else None
+
+
+def _type_offsets(wire, start=0, end=None, depth=0):
+    if end is None:
+        end = len(wire)
+    out = []
+    for typ, tl, vs, ve, _m in T.walk(wire, start, end):
+        out.append(tl)
+        if typ in CONTAINERS and depth < 6:
+            try:
+                out.extend(_type_offsets(wire, vs, ve, depth + 1))
+            except T.Malformed:
+                pass
+    return out
 
 
 def _length_offsets(wire, start=0, end=None, depth=0):
